@@ -4,7 +4,8 @@ use crate::wal::block::Block;
 #[cfg(target_os = "linux")]
 use crate::wal::block::Metadata;
 use crate::wal::config::{
-    DEFAULT_BLOCK_SIZE, FsyncSchedule, MAX_BATCH_BYTES, MAX_BATCH_ENTRIES, PREFIX_META_SIZE,
+    DEFAULT_BLOCK_SIZE, FsyncSchedule, MAX_ALLOC, MAX_BATCH_BYTES, MAX_BATCH_ENTRIES,
+    PREFIX_META_SIZE,
     debug_print,
 };
 #[cfg(target_os = "linux")]
@@ -77,6 +78,13 @@ impl Writer {
                 need,
                 block.limit
             );
+            // Allocate the next block first: if the allocation is rejected (oversized
+            // entry, file creation failure) the current block must stay unsealed,
+            // otherwise it would be both in the sealed chain and the active block.
+            // SAFETY: We hold `current_block` and `current_offset` mutexes, so
+            // this writer has exclusive ownership of the active block. The
+            // allocator's internal lock ensures unique block handout.
+            let new_block = unsafe { self.allocator.alloc_block(need) }?;
             FileStateTracker::set_block_unlocked(block.id as usize);
             let mut sealed = block.clone();
             sealed.used = *cur;
@@ -84,10 +92,6 @@ impl Writer {
             let _ = self.reader.append_block_to_chain(&self.col, sealed);
             debug_print!("[writer] appended sealed block to chain: col={}", self.col);
             // switch to new block
-            // SAFETY: We hold `current_block` and `current_offset` mutexes, so
-            // this writer has exclusive ownership of the active block. The
-            // allocator's internal lock ensures unique block handout.
-            let new_block = unsafe { self.allocator.alloc_block(need) }?;
             debug_print!(
                 "[writer] switched to new block: col={}, new_block_id={}",
                 self.col,
@@ -166,6 +170,18 @@ impl Writer {
 
         if batch.is_empty() {
             return Ok(());
+        }
+
+        // Reject an entry that can never be allocated before any block is sealed or
+        // allocated for this batch (the allocator would refuse it mid-planning).
+        if batch
+            .iter()
+            .any(|data| (PREFIX_META_SIZE as u64) + (data.len() as u64) > MAX_ALLOC)
+        {
+            return Err(std::io::Error::new(
+                std::io::ErrorKind::InvalidInput,
+                "invalid allocation size, a single entry can't be more than 1gb",
+            ));
         }
 
         // Try to acquire batch write flag
